@@ -140,6 +140,11 @@ class ExBase:
             return [(st, z3.BoolVal(True))]
         hint = v.py
         t = v.t
+        th = getattr(self.spec, "truth_hook", None)
+        if th is not None and hint not in ("list", "tuple", "dict", "bool", "opt_truthy", "func", "class", "opt_list"):
+            r = th(self, st, v, label)
+            if r is not None:
+                return r
         if hint in ("list", "tuple"):
             return [(st, z3.Length(st.get("list", t)) > 0)]
         if hint == "dict":
